@@ -132,7 +132,8 @@ impl Property for C20Prop {
             let negative = tape.chance(1, 3);
             return Some(json!({"kind": "int-literal", "text": text, "magnitude": magnitude.to_string(), "negative": negative}));
         }
-        let depth = tape.below(5);
+        // one value in six is nested deeper than the five levels below which the renderer once elided
+        let depth = if tape.chance(1, 6) { 5 + tape.below(5) } else { tape.below(5) };
         Some(json!({"kind": "value", "value": gen_value(tape, depth)}))
     }
 
@@ -422,6 +423,25 @@ pub fn run(session: &Session) -> i32 {
     }
     cases.push(json!({"kind": "value", "value": []}));
     cases.push(json!({"kind": "value", "value": [[], [[]]]}));
+    // deep values: the rendering of a value is a literal however deep it is nested (towers of arrays,
+    // of tuples, alternating, and with a sibling at every level; every kind of leaf)
+    for leaf in [json!(true), Json::Null, json!(1), lit::float(-0.0), json!("s\n"), json!([]), lit::tuple(vec![Json::Null, json!(false)])] {
+        for depth in 4..=16usize {
+            let mut arrays = leaf.clone();
+            let mut tuples = leaf.clone();
+            let mut mixed = leaf.clone();
+            let mut wide = leaf.clone();
+            for level in 0..depth {
+                arrays = json!([arrays]);
+                tuples = lit::tuple(vec![tuples, json!(level as i64)]);
+                mixed = if level % 2 == 0 { json!([mixed]) } else { lit::tuple(vec![json!("k"), mixed]) };
+                wide = json!([leaf.clone(), wide, leaf.clone()]);
+            }
+            for v in [arrays, tuples, mixed, wide] {
+                cases.push(json!({"kind": "value", "value": v}));
+            }
+        }
+    }
     // big values: the rendering of a value is a literal however many leaves it has
     for n in [100usize, 400, 1000, 3000] {
         cases.push(json!({"kind": "value", "value": (0..n as i64).map(|k| json!(k * 37 - 50)).collect::<Vec<Json>>()}));
@@ -479,7 +499,7 @@ pub fn run(session: &Session) -> i32 {
     let mut generated = vec![];
     for data in session.sample_tapes(session.tier.of(2000, 40000), 120, 9) {
         let mut tape = Tape::new(data);
-        let depth = tape.below(5);
+        let depth = if tape.chance(1, 6) { 5 + tape.below(5) } else { tape.below(5) };
         generated.push(gen_value(&mut tape, depth));
     }
     for chunk in generated.chunks(400) {
@@ -495,7 +515,7 @@ pub fn run(session: &Session) -> i32 {
         session.run_tapes(&C20, session.tier.of(60_000, 3_000_000), 120, 0);
     }
     session.finish(
-        "nested values (depth <= 4) of bool, int (45-value boundary grid incl. MIN/MAX, small, random), finite floats (grid incl. signed zero, subnormals, 1e308, exponent forms, random bit patterns), strings over 26 characters (quote, backslash, NUL and other C0/C1 controls next to digits, DEL, combining mark, BOM, non-BMP, escape-letter look-alikes), (), arrays and tuples, built through the public constructors, rendered with {:?} and fed back to Variable::from_str and (unless MIN_INT occurs) to Code::parse+exec: content, `==` and as_type() must be preserved; integer literal texts in radix 2/8/10/16 with random underscores and magnitudes up to 2^65 must denote their mathematical value or be rejected with the too-big error, as value literal (also negated) and as program; every boundary scalar and every 1-2 character string over the alphabet is also checked alone, in an array and in a nested tuple (exhaustive). Non-trivial = nesting >= 1 or a boundary scalar / escaped character; distinct by rendered text.",
+        "nested values (generated to depth 9, enumerated towers of arrays / tuples / both / with siblings to depth 16 over every kind of leaf) of bool, int (45-value boundary grid incl. MIN/MAX, small, random), finite floats (grid incl. signed zero, subnormals, 1e308, exponent forms, random bit patterns), strings over 26 characters (quote, backslash, NUL and other C0/C1 controls next to digits, DEL, combining mark, BOM, non-BMP, escape-letter look-alikes), (), arrays and tuples, built through the public constructors, rendered with {:?} and fed back to Variable::from_str and (unless MIN_INT occurs) to Code::parse+exec: content, `==` and as_type() must be preserved; integer literal texts in radix 2/8/10/16 with random underscores and magnitudes up to 2^65 must denote their mathematical value or be rejected with the too-big error, as value literal (also negated) and as program; every boundary scalar and every 1-2 character string over the alphabet is also checked alone, in an array and in a nested tuple (exhaustive). Non-trivial = nesting >= 1 or a boundary scalar / escaped character; distinct by rendered text.",
         false,
         &["the oracle for content equality is the harness's JSON model of the value"],
     )
